@@ -181,6 +181,25 @@ pub fn run_case(lines: &[Vec<String>], o: &mut Out) {
         kind: graphrs::ErrorKind::ReadError,
         message: String::new()
     })); // 66
+    // ---- every name of the graph, the first one listed twice: all names exist (class 1) ----
+    if let Some(f) = names.first() {
+        let mut rep: Vec<i64> = names.clone();
+        rep.push(*f);
+        let r1 = rep.clone();
+        res!(103, 1, g, g.get_edges_for_nodes(&r1));
+        let r1 = rep.clone();
+        res!(104, 1, g, g.get_in_edges_for_nodes(&r1));
+        let r1 = rep.clone();
+        res!(105, 1, g, g.get_out_edges_for_nodes(&r1));
+        let r1 = rep.clone();
+        res!(106, 1, g, dijkstra::multi_source(&*g, false, r1, None, None, false, true));
+        let r1 = names.clone();
+        res!(107, 1, g, dijkstra::multi_source(&*g, true, r1, None, None, false, true));
+        let (r1, f1) = (names.clone(), *f);
+        res!(108, 1, g, dijkstra::multi_source(&*g, true, r1, Some(f1), None, true, false));
+        let r1 = rep.clone();
+        plain!(109, 1, g, g.has_nodes(&r1));
+    }
     // ---- functions with one name argument ----
     for (cls, x) in picks.iter().cloned() {
         opt!(51, cls, g, g.get_node(x)); // Option
